@@ -18,7 +18,7 @@ Definition prefixes_current : list prefix_rule :=
    mk_prefix "/debug/vars" "" "h.serveExpvar" true;
    mk_prefix "/debug/query" "" "h.serveDebugQuery" true].
 Definition cfg_on : config := mk_config true false [].
-Definition one_admin : list user := [mk_user "root" "rootpw" true []].
+Definition one_admin : list user := [mk_user "root" "rootpw" true false []].
 Definition anonymous : request := mk_request (mk_creds_in "" "" HNone) "".
 
 (* C19-failpoint-public / C19-runtime-config-public: a route registered with the two-argument signature runs its
@@ -63,7 +63,7 @@ Proof. vm_compute. repeat split. Qed.
 
 (* C19-create-tsdb-unprivileged: a handler that takes the user but checks nothing (KOpaque, today's
    servePromCreateTSDB) acts for a user who holds no privilege at all; an administrator check (KAdminOnly) refuses. *)
-Definition nobody : user := mk_user "grantee" "Gr#Pw12345xy" false [].
+Definition nobody : user := mk_user "grantee" "Gr#Pw12345xy" false false [].
 Definition tsdb_route_current : route := mk_route "prometheus-create-tsdb" "POST" "/api/v1/tsdb/{tsdb}" "h.servePromCreateTSDB" SigUser "".
 Theorem C19_unchecked_handler_refuted :
   let us := (one_admin ++ [nobody])%list in
@@ -73,3 +73,31 @@ Theorem C19_unchecked_handler_refuted :
   serve shape_current cfg_on us tsdb_route_current KAdminOnly rq = (403, []).
 Proof. vm_compute. repeat split. discriminate. Qed.
 Print Assumptions C19_unchecked_handler_refuted.
+
+(* C19-logstore-listing-unprivileged (repaired 3986ddb): the old listing handler returned the whole catalogue to every
+   authenticated user; the repaired one returns what the user may read or write. *)
+Definition listing_current (u : user) (dbs : list string) : list string := dbs.
+Theorem C19_listing_refuted :
+  exists d, In d (listing_current nobody ["db1"; "db2"]) /\ ~ (has_priv nobody ReadPriv d \/ has_priv nobody WritePriv d).
+Proof.
+  exists "db1". split; [left; reflexivity|]. intros [H|H]; apply authorize_database_spec in H; vm_compute in H; discriminate.
+Qed.
+Print Assumptions C19_listing_refuted.
+Theorem C19_listing_repaired : visible_repositories nobody ["db1"; "db2"] = [].
+Proof. reflexivity. Qed.
+
+(* C19-logstore-data-unprivileged (open): the log-store record / upload / cursor / consume / stream-task handlers make no
+   authorization decision on their user: the handler fact is the empty list, which only the open finding excuses; such a
+   handler (KOpaque) acts for a user without any privilege, while the write check of serveWrite (KWrite) refuses. *)
+Definition records_guard_current : hguard := mk_hguard "POST" "/repo/{repository}/logstreams/{logStream}/records" [].
+Definition records_route_current : route :=
+  mk_route "write-log" "POST" "/repo/{repository}/logstreams/{logStream}/records" "h.serveRecord" SigUser "config2.IsLogKeeper()".
+Theorem C19_dataplane_refuted :
+  let us := (one_admin ++ [nobody])%list in
+  let rq := mk_request (mk_creds_in "grantee" "Gr#Pw12345xy" HNone) "db1" in
+  guard_ok [] records_guard_current = false /\
+  snd (serve shape_current cfg_on us records_route_current KOpaque rq) <> [] /\
+  serve shape_current cfg_on us records_route_current KWrite rq = (403, []) /\
+  guard_ok [] (mk_hguard "POST" "/repo/{repository}/logstreams/{logStream}/records" ["write"]) = true.
+Proof. vm_compute. repeat split. discriminate. Qed.
+Print Assumptions C19_dataplane_refuted.
